@@ -36,6 +36,15 @@ FIXED_BURSTS = [
     # two sibling sub-trees, each three deep, found by the walk only
     ([], [[("mkdir", "W/T"), ("mkdir", "W/T/x"), ("mkdir", "W/T/y"), ("mkdir", "W/T/x/1"), ("mkdir", "W/T/y/2"), ("mkdir", "W/T/x/1/p"),
            ("mkdir", "W/T/y/2/q"), ("create", "W/T/x/1/p/f")], [("create", "W/T/x/1/p/g"), ("create", "W/T/y/2/q/g")]]),
+    # a directory leaves the tree and, before the emitter has dealt with it (the pairing delay), the directory it used to be
+    # in - or one further up - is renamed: what happens to the departed directory afterwards is none of the watch's business
+    # (defect D21).  Within the pacing condition: the second operation touches neither the departed directory's contents
+    # nor its name
+    ([("mkdir", "W/p"), ("mkdir", "W/p/d"), ("create", "W/p/d/f")],
+     [[("rename", "W/p/d", "O/d"), ("rename", "W/p", "W/q")], [("create", "O/d/x")], [("unlink", "O/d/f")], [("create", "W/q/y")]]),
+    ([("mkdir", "W/a"), ("mkdir", "W/a/p"), ("mkdir", "W/a/p/d"), ("mkdir", "W/a/p/d/dd"), ("create", "W/a/p/d/dd/f")],
+     [[("rename", "W/a/p/d", "O/d"), ("rename", "W/a", "W/b")], [("create", "O/d/dd/x")], [("mkdir", "O/d/n")], [("create", "W/b/p/y")],
+      [("rename", "O/d", "W/b/p/back")], [("create", "W/b/p/back/dd/z")]]),
 ]
 
 
